@@ -38,46 +38,46 @@ theorem exitStatus_of_iff (rs : List FileResult)
 /-! ## the repair loop when no block fails -/
 
 /-- the loop of `runLoop` started from state `s` at block number `n` -/
-def loopFrom (O : Ops) (fast : Bool) (thr : Nat) (s : LoopSt) (n : Nat) (blocks : List AsmBlock) :
+def loopFrom (O : Ops) (fast : Bool) (mbs thr : Nat) (s : LoopSt) (n : Nat) (blocks : List AsmBlock) :
     LoopSt :=
-  (blocks.zipIdx n).foldl (fun s bi => loopStep O fast thr s bi.2 bi.1) s
+  (blocks.zipIdx n).foldl (fun s bi => loopStep O fast mbs thr s bi.2 bi.1) s
 
-theorem runLoop_eq_loopFrom (O : Ops) (fast : Bool) (thr : Nat) (blocks : List AsmBlock) :
-    runLoop O fast thr blocks = loopFrom O fast thr { written := [] } 0 blocks := rfl
+theorem runLoop_eq_loopFrom (O : Ops) (fast : Bool) (mbs thr : Nat) (blocks : List AsmBlock) :
+    runLoop O fast mbs thr blocks = loopFrom O fast mbs thr { written := [] } 0 blocks := rfl
 
-theorem loopFrom_nil (O : Ops) (fast : Bool) (thr : Nat) (s : LoopSt) (n : Nat) :
-    loopFrom O fast thr s n [] = s := rfl
+theorem loopFrom_nil (O : Ops) (fast : Bool) (mbs thr : Nat) (s : LoopSt) (n : Nat) :
+    loopFrom O fast mbs thr s n [] = s := rfl
 
-theorem loopFrom_cons (O : Ops) (fast : Bool) (thr : Nat) (s : LoopSt) (n : Nat) (b : AsmBlock)
+theorem loopFrom_cons (O : Ops) (fast : Bool) (mbs thr : Nat) (s : LoopSt) (n : Nat) (b : AsmBlock)
     (bs : List AsmBlock) :
-    loopFrom O fast thr s n (b :: bs) = loopFrom O fast thr (loopStep O fast thr s n b) (n + 1) bs := by
+    loopFrom O fast mbs thr s n (b :: bs) = loopFrom O fast mbs thr (loopStep O fast mbs thr s n b) (n + 1) bs := by
   simp only [loopFrom, List.zipIdx_cons, List.foldl_cons]
 
 /-- block `b` is either accepted as it is or repaired, and `f b` is what gets written -/
-def StepOK (O : Ops) (fast : Bool) (f : AsmBlock → Bytes) (b : AsmBlock) : Prop :=
-  (needsRepair O fast b = false ∧ processBlock O fast b = (f b, .intact)) ∨
-  (needsRepair O fast b = true ∧ processBlock O fast b = (f b, .repaired))
+def StepOK (O : Ops) (fast : Bool) (mbs : Nat) (f : AsmBlock → Bytes) (b : AsmBlock) : Prop :=
+  (needsRepair O fast b = false ∧ processBlock O fast mbs b = (f b, .intact)) ∨
+  (needsRepair O fast b = true ∧ processBlock O fast mbs b = (f b, .repaired))
 
-theorem loopStep_intact (O : Ops) (fast : Bool) (thr : Nat) (s : LoopSt) (i : Nat) (b : AsmBlock)
-    (w : Bytes) (hs : s.stopped = false) (h : processBlock O fast b = (w, .intact)) :
-    loopStep O fast thr s i b = { s with written := s.written ++ [w], errConsec := false } := by
+theorem loopStep_intact (O : Ops) (fast : Bool) (mbs thr : Nat) (s : LoopSt) (i : Nat) (b : AsmBlock)
+    (w : Bytes) (hs : s.stopped = false) (h : processBlock O fast mbs b = (w, .intact)) :
+    loopStep O fast mbs thr s i b = { s with written := s.written ++ [w], errConsec := false } := by
   simp only [loopStep, hs, h, Bool.false_eq_true, if_false]
 
-theorem loopStep_repaired (O : Ops) (fast : Bool) (thr : Nat) (s : LoopSt) (i : Nat) (b : AsmBlock)
-    (w : Bytes) (hs : s.stopped = false) (h : processBlock O fast b = (w, .repaired)) :
-    loopStep O fast thr s i b =
+theorem loopStep_repaired (O : Ops) (fast : Bool) (mbs thr : Nat) (s : LoopSt) (i : Nat) (b : AsmBlock)
+    (w : Bytes) (hs : s.stopped = false) (h : processBlock O fast mbs b = (w, .repaired)) :
+    loopStep O fast mbs thr s i b =
       { s with written := s.written ++ [w], anyRepair := true, repairedOne := true,
                errConsec := false } := by
   simp only [loopStep, hs, h, Bool.false_eq_true, if_false]
 
-theorem loopFrom_ok (O : Ops) (fast : Bool) (thr : Nat) (f : AsmBlock → Bytes) :
+theorem loopFrom_ok (O : Ops) (fast : Bool) (mbs thr : Nat) (f : AsmBlock → Bytes) :
     ∀ (blocks : List AsmBlock) (s : LoopSt) (n : Nat),
-      (∀ b ∈ blocks, StepOK O fast f b) → s.stopped = false → s.partialFail = false →
-      (loopFrom O fast thr s n blocks).stopped = false ∧
-      (loopFrom O fast thr s n blocks).partialFail = false ∧
-      (loopFrom O fast thr s n blocks).written = s.written ++ blocks.map f ∧
-      (loopFrom O fast thr s n blocks).anyRepair = (s.anyRepair || blocks.any (needsRepair O fast)) ∧
-      (loopFrom O fast thr s n blocks).repairedOne = (s.repairedOne || blocks.any (needsRepair O fast)) := by
+      (∀ b ∈ blocks, StepOK O fast mbs f b) → s.stopped = false → s.partialFail = false →
+      (loopFrom O fast mbs thr s n blocks).stopped = false ∧
+      (loopFrom O fast mbs thr s n blocks).partialFail = false ∧
+      (loopFrom O fast mbs thr s n blocks).written = s.written ++ blocks.map f ∧
+      (loopFrom O fast mbs thr s n blocks).anyRepair = (s.anyRepair || blocks.any (needsRepair O fast)) ∧
+      (loopFrom O fast mbs thr s n blocks).repairedOne = (s.repairedOne || blocks.any (needsRepair O fast)) := by
   intro blocks
   induction blocks with
   | nil =>
@@ -87,39 +87,39 @@ theorem loopFrom_ok (O : Ops) (fast : Bool) (thr : Nat) (f : AsmBlock → Bytes)
   | cons b bs ih =>
     intro s n hall hs hp
     have hb := hall b (List.mem_cons_self)
-    have hbs : ∀ b' ∈ bs, StepOK O fast f b' := fun b' hb' => hall b' (List.mem_cons_of_mem _ hb')
+    have hbs : ∀ b' ∈ bs, StepOK O fast mbs f b' := fun b' hb' => hall b' (List.mem_cons_of_mem _ hb')
     rw [loopFrom_cons]
     rcases hb with ⟨hn, hpb⟩ | ⟨hn, hpb⟩
-    · rw [loopStep_intact O fast thr s n b _ hs hpb]
+    · rw [loopStep_intact O fast mbs thr s n b _ hs hpb]
       have := ih { s with written := s.written ++ [f b], errConsec := false } (n + 1) hbs hs hp
       simp only [List.map_cons, List.any_cons, hn, Bool.false_or]
       simpa only [List.append_assoc, List.singleton_append] using this
-    · rw [loopStep_repaired O fast thr s n b _ hs hpb]
+    · rw [loopStep_repaired O fast mbs thr s n b _ hs hpb]
       have := ih { s with written := s.written ++ [f b], anyRepair := true, repairedOne := true,
                           errConsec := false } (n + 1) hbs hs hp
       simp only [List.map_cons, List.any_cons, hn, Bool.true_or, Bool.or_true]
       simpa only [List.append_assoc, List.singleton_append, Bool.true_or] using this
 
-theorem runLoop_ok (O : Ops) (fast : Bool) (thr : Nat) (f : AsmBlock → Bytes)
-    (blocks : List AsmBlock) (hall : ∀ b ∈ blocks, StepOK O fast f b) :
-    (runLoop O fast thr blocks).stopped = false ∧
-    (runLoop O fast thr blocks).partialFail = false ∧
-    (runLoop O fast thr blocks).written = blocks.map f ∧
-    (runLoop O fast thr blocks).anyRepair = blocks.any (needsRepair O fast) ∧
-    (runLoop O fast thr blocks).repairedOne = blocks.any (needsRepair O fast) := by
-  have h := loopFrom_ok O fast thr f blocks { written := [] } 0 hall rfl rfl
+theorem runLoop_ok (O : Ops) (fast : Bool) (mbs thr : Nat) (f : AsmBlock → Bytes)
+    (blocks : List AsmBlock) (hall : ∀ b ∈ blocks, StepOK O fast mbs f b) :
+    (runLoop O fast mbs thr blocks).stopped = false ∧
+    (runLoop O fast mbs thr blocks).partialFail = false ∧
+    (runLoop O fast mbs thr blocks).written = blocks.map f ∧
+    (runLoop O fast mbs thr blocks).anyRepair = blocks.any (needsRepair O fast) ∧
+    (runLoop O fast mbs thr blocks).repairedOne = blocks.any (needsRepair O fast) := by
+  have h := loopFrom_ok O fast mbs thr f blocks { written := [] } 0 hall rfl rfl
   rw [runLoop_eq_loopFrom]
   simpa only [List.nil_append, Bool.false_or] using h
 
 /-! ## blocks that need no repair -/
 
-theorem processBlock_of_clean (O : Ops) (fast : Bool) (b : AsmBlock)
-    (h : needsRepair O fast b = false) : processBlock O fast b = (b.msg, .intact) := by
+theorem processBlock_of_clean (O : Ops) (fast : Bool) (mbs : Nat) (b : AsmBlock)
+    (h : needsRepair O fast b = false) : processBlock O fast mbs b = (b.msg, .intact) := by
   simp only [processBlock, h, Bool.false_eq_true, if_false]
 
-theorem stepOK_of_clean (O : Ops) (fast : Bool) (b : AsmBlock)
-    (h : needsRepair O fast b = false) : StepOK O fast (·.msg) b :=
-  Or.inl ⟨h, processBlock_of_clean O fast b h⟩
+theorem stepOK_of_clean (O : Ops) (fast : Bool) (mbs : Nat) (b : AsmBlock)
+    (h : needsRepair O fast b = false) : StepOK O fast mbs (·.msg) b :=
+  Or.inl ⟨h, processBlock_of_clean O fast mbs b h⟩
 
 theorem any_needsRepair_false (O : Ops) (fast : Bool) (blocks : List AsmBlock)
     (h : ∀ b ∈ blocks, needsRepair O fast b = false) : blocks.any (needsRepair O fast) = false := by
@@ -154,7 +154,7 @@ theorem correctHeaderFile_clean (O : Ops) (fast : Bool) (thr k hashLen mbs readL
       needsRepair O fast b = false) :
     correctHeaderFile O fast thr k hashLen mbs readLen content track =
       { output := none, corrupted := false, complete := false, partialRep := false } := by
-  have hr := runLoop_ok O fast thr (·.msg) _ (fun b hb => stepOK_of_clean O fast b (h b hb))
+  have hr := runLoop_ok O fast mbs thr (·.msg) _ (fun b hb => stepOK_of_clean O fast mbs b (h b hb))
   have ha := hr.2.2.2.1
   rw [any_needsRepair_false O fast _ h] at ha
   simp only [correctHeaderFile, ha, Bool.false_eq_true, if_false]
@@ -223,28 +223,30 @@ theorem take_readLen (content : Bytes) (headerSize : Nat) :
 def fixOf (orig : Bytes) (b : AsmBlock) : Bytes := (orig.drop b.off).take b.msg.length
 
 /-- `BlockOK` of C01 with the `let` unfolded -/
-def BlockOK' (O : Ops) (fast : Bool) (orig : Bytes) (b : AsmBlock) : Prop :=
+def BlockOK' (O : Ops) (fast : Bool) (mbs : Nat) (orig : Bytes) (b : AsmBlock) : Prop :=
   (b.msg = fixOf orig b ∧ needsRepair O fast b = false) ∨
   (needsRepair O fast b = true ∧ ∃ p, O.dec b.k b.msg b.ecc = some (fixOf orig b, p) ∧
-      (O.H (fixOf orig b) = b.hash ∨ O.chk b.k (fixOf orig b) p = true))
+      (O.H (fixOf orig b) = b.hash ∨
+        (O.chk b.k (fixOf orig b) p = true ∧ eccComplete mbs b = true)))
 
-theorem stepOK_of_blockOK (O : Ops) (fast : Bool) (orig : Bytes) (b : AsmBlock)
-    (h : BlockOK' O fast orig b) : StepOK O fast (fixOf orig) b := by
+theorem stepOK_of_blockOK (O : Ops) (fast : Bool) (mbs : Nat) (orig : Bytes) (b : AsmBlock)
+    (h : BlockOK' O fast mbs orig b) : StepOK O fast mbs (fixOf orig) b := by
   rcases h with ⟨hm, hn⟩ | ⟨hn, p, hd, hc⟩
   · left
     refine ⟨hn, ?_⟩
-    rw [processBlock_of_clean O fast b hn, ← hm]
+    rw [processBlock_of_clean O fast mbs b hn, ← hm]
   · right
     refine ⟨hn, ?_⟩
-    have hcommit : (decide (O.H (fixOf orig b) = b.hash) || O.chk b.k (fixOf orig b) p) = true := by
-      rcases hc with hc | hc
+    have hcommit : (decide (O.H (fixOf orig b) = b.hash) ||
+        (O.chk b.k (fixOf orig b) p && eccComplete mbs b)) = true := by
+      rcases hc with hc | ⟨hc, he⟩
       · rw [decide_eq_true hc, Bool.true_or]
-      · rw [hc, Bool.or_true]
+      · rw [hc, he, Bool.and_self, Bool.or_true]
     simp only [processBlock, hn, if_true, hd, hcommit]
 
 /-- if no block needs repair, the blocks are those of the original -/
-theorem map_msg_eq_of_clean (O : Ops) (fast : Bool) (orig : Bytes) (blocks : List AsmBlock)
-    (hok : ∀ b ∈ blocks, BlockOK' O fast orig b)
+theorem map_msg_eq_of_clean (O : Ops) (fast : Bool) (mbs : Nat) (orig : Bytes) (blocks : List AsmBlock)
+    (hok : ∀ b ∈ blocks, BlockOK' O fast mbs orig b)
     (hany : blocks.any (needsRepair O fast) = false) :
     blocks.map (·.msg) = blocks.map (fixOf orig) := by
   apply List.map_congr_left
@@ -320,7 +322,7 @@ theorem correctWholeFile_ok (O : Ops) (fast : Bool) (thr hashLen mbs : Nat) (kOf
     (hcover : ((assemble kOf hashLen mbs damaged trackD (damaged.length + 1) 0 0).map (·.msg)).flatten
                 = damaged)
     (hok : ∀ b ∈ assemble kOf hashLen mbs damaged trackD (damaged.length + 1) 0 0,
-      BlockOK' O fast orig b) :
+      BlockOK' O fast mbs orig b) :
     ((assemble kOf hashLen mbs damaged trackD (damaged.length + 1) 0 0).any (needsRepair O fast) = true →
       correctWholeFile O fast thr kOf hashLen mbs damaged trackD =
         { output := some orig, corrupted := true, complete := true, partialRep := false }) ∧
@@ -333,9 +335,9 @@ theorem correctWholeFile_ok (O : Ops) (fast : Bool) (thr hashLen mbs : Nat) (kOf
   rw [hcover, List.drop_zero, htake] at hfix
   constructor
   · intro hany
-    obtain ⟨_, hpf, hw, _, hro⟩ := runLoop_ok O fast thr (fixOf orig) _
-      (fun b hb => stepOK_of_blockOK O fast orig b (hok b hb))
-    have hbody : (runLoop O fast thr
+    obtain ⟨_, hpf, hw, _, hro⟩ := runLoop_ok O fast mbs thr (fixOf orig) _
+      (fun b hb => stepOK_of_blockOK O fast mbs orig b (hok b hb))
+    have hbody : (runLoop O fast mbs thr
         (assemble kOf hashLen mbs damaged trackD (damaged.length + 1) 0 0)).written.flatten = orig := by
       rw [hw, hfix]
     rw [hany] at hro
@@ -346,14 +348,14 @@ theorem correctWholeFile_ok (O : Ops) (fast : Bool) (thr hashLen mbs : Nat) (kOf
   · intro hany
     constructor
     · simp only [correctWholeFile, hany, Bool.false_eq_true, if_false]
-    · rw [← hcover, map_msg_eq_of_clean O fast orig _ hok hany, hfix]
+    · rw [← hcover, map_msg_eq_of_clean O fast mbs orig _ hok hany, hfix]
 
 theorem correctHeaderFile_ok (O : Ops) (fast : Bool) (thr k hashLen mbs readLen : Nat)
     (orig damaged trackD : Bytes) (hlen : damaged.length = orig.length)
     (hcover : ((assembleHeader k hashLen mbs readLen damaged trackD (damaged.length + 1) 0 0).map
                 (·.msg)).flatten = damaged.take readLen)
     (hok : ∀ b ∈ assembleHeader k hashLen mbs readLen damaged trackD (damaged.length + 1) 0 0,
-      BlockOK' O fast orig b) :
+      BlockOK' O fast mbs orig b) :
     ((assembleHeader k hashLen mbs readLen damaged trackD (damaged.length + 1) 0 0).any
         (needsRepair O fast) = true →
       correctHeaderFile O fast thr k hashLen mbs readLen damaged trackD =
@@ -369,8 +371,8 @@ theorem correctHeaderFile_ok (O : Ops) (fast : Bool) (thr k hashLen mbs readLen 
   have htake : orig.take (damaged.take readLen).length = orig.take readLen := by
     rw [List.take_eq_take_iff, List.length_take]; omega
   rw [hcover, List.drop_zero, htake] at hfix
-  obtain ⟨_, hpf, hw, har, _⟩ := runLoop_ok O fast thr (fixOf orig) _
-    (fun b hb => stepOK_of_blockOK O fast orig b (hok b hb))
+  obtain ⟨_, hpf, hw, har, _⟩ := runLoop_ok O fast mbs thr (fixOf orig) _
+    (fun b hb => stepOK_of_blockOK O fast mbs orig b (hok b hb))
   constructor
   · intro hany
     rw [hany] at har
@@ -385,6 +387,6 @@ theorem correctHeaderFile_ok (O : Ops) (fast : Bool) (thr k hashLen mbs readLen 
     rw [hany] at har
     constructor
     · simp only [correctHeaderFile, har, Bool.false_eq_true, if_false]
-    · rw [← hcover, map_msg_eq_of_clean O fast orig _ hok hany, hfix]
+    · rw [← hcover, map_msg_eq_of_clean O fast mbs orig _ hok hany, hfix]
 
 end Pff.Ecc.B
